@@ -11,7 +11,7 @@ func init() {
 	register(&propDef{
 		ID:       "C10",
 		Explain:  "Decided for ctree (structural necessary conditions): guarded-by (every read of a node's leafBranch holds that node's mu, every write its write lock; helpers' entry locksets established at every call site; objects not yet published exempt); lock coupling (the caller's node lock is held at every recursive descent call); the re-check of the child map inside the write epoch before a new child is inserted; no lock upgrade or re-entrant acquisition (directly or through a callee); every acquire released on all exits; visitors passed to Query/Walk inside the module do not call back into ctree.",
-		NotCover: "linearizability, query stability, panic-freedom under races; the delete family's use of the root lock only is a known finding (F6), so races between deletes and handle-based leaf access are NOT excluded",
+		NotCover: "linearizability, query stability, panic-freedom under races",
 		Run:      runC10,
 	})
 }
@@ -47,8 +47,7 @@ func runC10(c *Ctx) {
 	c.Floor("C10.guarded/accesses", la.Accesses, 20)
 
 	// ---- lock coupling: the caller's node lock is held at every descent into another node
-	c.Rule("C10.coupled", "at every call from a ctree method to a ctree method on a different node (descent into a child), the caller's own node lock is held (R or W); exempt: the delete family, which relies on the root write lock (see C10.guarded / F6), and descents into nodes allocated in the same activation")
-	deleteFamily := map[string]bool{"(*ctree.Tree).internalDelete": true}
+	c.Rule("C10.coupled", "at every call from a ctree method to a ctree method on a different node (descent into a child), the caller's own node lock is held (R or W); exempt: descents into nodes allocated in the same activation")
 	nDesc := 0
 	for _, f := range la.fns {
 		if f.Signature.Recv() == nil || !isNamed(f.Signature.Recv().Type(), "ctree", "Tree") {
@@ -74,9 +73,6 @@ func runC10(c *Ctx) {
 					return // e.g. t.Get(path).Value(): the callee result is not a child reached under our lock
 				}
 				nDesc++
-				if deleteFamily[fnName(f)] {
-					return
-				}
 				ok2 := holds(held, self, fMu, false)
 				if !ok2 {
 					// helper running under its caller's lock: the entry requirement on the receiver
